@@ -119,6 +119,14 @@ func (g *Graph) continueWalking(found chan x509.CertificateChain, start *GraphEd
 		}
 
 	}
+
+	// A root whose own issuer is not in the graph still terminates a chain.
+	for _, edge := range current.danglingParents.edges {
+		if !edge.root || canAddToChain(edge.Certificate, x509.CertificateTypeRoot, soFar) != nil {
+			continue
+		}
+		g.continueWalking(found, start, nil, soFar.AppendToFreshChain(edge.Certificate), edge)
+	}
 	return
 }
 
